@@ -11,7 +11,8 @@
 (* hpke   [kem, variant]                        ciphertext        prefix || ENC(Nenc(kem)) || AEAD ct   (RFC 9180) *)
 (* ecies  [curve, fmt, dem, variant]            ciphertext        prefix || POINT || DEM ciphertext (IV first unless AES-SIV) *)
 (* sig    [variant]                             signature         prefix || RAW SIGNATURE  (same message every call) *)
-(* keyid  []                                    key id, manager   ID (4 bytes); (manager, ID) never repeats *)
+(* keyid  []                                    key id, manager   ID (4 bytes); (manager, ID) never repeats, *)
+(*                                                                also not after the key of that id was deleted *)
 (* keygen []                                    serialized key    KEY MATERIAL             *)
 (*                                                                                    *)
 (* Besides each field, the XOR of two random fields of one output is monitored as a     *)
